@@ -192,6 +192,9 @@ func runHTTPPart(o hx.Opts, r *hx.Rand, e *env, replay *Input) {
 			if in.NoPort {
 				dist["director-without-port"]++
 			}
+			if in.RealTCP {
+				dist["client-leg-real-tcp"]++
+			}
 			tot := 0
 			for _, m := range in.Msgs {
 				tot += len(m)
@@ -236,6 +239,7 @@ func genHTTPInputs(o hx.Opts, r *hx.Rand) []HttpInput {
 		small := r.Chance(3, 5)
 		in := genLockstep(r, id(), r.PickInt([]int{1, 1, 2, 3, 4}), small)
 		in.NoPort = r.Chance(1, 5)
+		in.RealTCP = r.Chance(1, 6)
 		in.Group = group
 		if r.Chance(1, 2) {
 			group++
@@ -266,6 +270,15 @@ func genHTTPInputs(o hx.Opts, r *hx.Rand) []HttpInput {
 	group++
 	for i := 0; i < nPipe; i++ {
 		in := genPipelined(r, id(), i%3)
+		in.Group = group
+		if i%3 == 2 {
+			group++
+		}
+		add(in)
+	}
+	group++
+	for i := 0; i < nMal/2; i++ {
+		in := genOversend(r, id())
 		in.Group = group
 		if i%3 == 2 {
 			group++
